@@ -149,7 +149,7 @@ impl Check for OpenClose {
         "C03"
     }
     fn rule(&self) -> String {
-        "generated: C01's alphabet plus close(side) at any point and an old duplicate SYN (sequence number 1..100000 before the real ISS, same ports) put on the wire at any point; after the generated operations a fair phase drains the connection, then each side that has not closed yet closes with probability 3/4, then a second fair phase. oracles: (1) every observed state change is a CLOSE edge for close(), a path of at most 2 receive edges of RFC 9293 Figure 5 per processed segment for segment_arrives, TIME-WAIT expiry for advance_time, never for segments(); (2) whenever a side is synchronised IRS equals the peer's ISS and RCV.NXT lies in [IRS+1, peer SND.NXT]; (3) at the end (after a final drain, reads may have been arbitrarily late) every byte a side wrote before closing has been read by the peer; (4) if both sides closed, both TCBs are released within the bound, by the final ACK or the 2*MSL wait, and no RST is emitted in the fair phases unless an old duplicate SYN was in play. non-trivial: both sides reached ESTABLISHED, at least one close was accepted, and (a fault hit a SYN/FIN/pure-ACK segment, or data was in flight at close time, or both sides closed). distinct: hash of decoded schedule".into()
+        "generated: C01's alphabet plus close(side) at any point and an old duplicate SYN (sequence number 1..100000 before the real ISS, same ports) put on the wire at any point; in 3/8 of the cases a legitimate prelude first drives the connection to ESTABLISHED, FIN-WAIT-1, FIN-WAIT-2/CLOSE-WAIT, CLOSING, LAST-ACK or TIME-WAIT so that closes, faults and old duplicates meet the late states often (classes close_in_<STATE> count where close() was called); after the generated operations a fair phase drains the connection, then each side that has not closed yet closes with probability 3/4, then a second fair phase. oracles: (1) every observed state change is a CLOSE edge for close(), a path of at most 2 receive edges of RFC 9293 Figure 5 per processed segment for segment_arrives, TIME-WAIT expiry for advance_time, never for segments(); (2) whenever a side is synchronised IRS equals the peer's ISS and RCV.NXT lies in [IRS+1, peer SND.NXT]; (3) at the end (after a final drain, reads may have been arbitrarily late) every byte a side wrote before closing has been read by the peer; (4) if both sides closed, both TCBs are released within the bound, by the final ACK or the 2*MSL wait, and no RST is emitted in the fair phases unless an old duplicate SYN was in play. non-trivial: both sides reached ESTABLISHED, at least one close was accepted, and (a fault hit a SYN/FIN/pure-ACK segment, or data was in flight at close time, or both sides closed). distinct: hash of decoded schedule".into()
     }
     fn assumptions(&self) -> Vec<String> {
         vec![
